@@ -7,10 +7,11 @@ pub mod catalogue;
 pub mod c05;
 pub mod c08;
 pub mod c10;
+pub mod c11;
 pub mod c08_lang;
 
 pub fn all() -> Vec<PropertyDef> {
-    vec![c01::def(), c02::def(), c03::def(), c05::def(), c08::def(), c10::def()]
+    vec![c01::def(), c02::def(), c03::def(), c05::def(), c08::def(), c10::def(), c11::def()]
 }
 
 pub fn lookup(id: &str) -> Option<PropertyDef> {
